@@ -145,7 +145,7 @@ Proof. unfold is_dead. destruct (get c x); [apply kw_refl|apply kw_same_heap; re
 
 (** ** every micro-op except stash and allocation leaves handles and set tables alone and is [KW] *)
 Definition is_stash (m : mop) : bool := match m with MStash _ _ _ => true | _ => false end.
-Definition is_alloc (m : mop) : bool := match m with MAlloc _ _ _ _ => true | _ => false end.
+Definition is_alloc (m : mop) : bool := match m with MAlloc _ _ _ _ | MAllocWith _ _ _ _ => true | _ => false end.
 
 Ltac fin E :=
   inversion E; subst; clear E; cbn [actx auid asets];
